@@ -136,6 +136,24 @@ def gen_c02_barge(r, big=False):
     return lines
 
 
+def gen_c06_barge(r, big=False):
+    """a holder H, waiters queued behind it; H (or a late-comer) unlocks and locks again before the waiter that the
+    unlock has just woken gets to run; timeouts of queued waiters fall around these moments"""
+    lines = ["obj rw r0"]
+    hold = r.choice(["rlock", "rlock", "wlock"])
+    ops = ["%s r0 inf" % hold, "sleep 100"]
+    for _ in range(r.randint(1, 3)):
+        ops.append("rwunlock r0")
+        ops.append("%s r0 %s" % (r.choice(["rlock", "rlock", "wlock"]), r.choice(["inf", "0", "100"])))
+        ops.append(r.choice(["sleep 100", "sleep 30", "yield"]))
+    lines.append("thread H %s ; rwunlock r0 ; rwunlock r0" % " ; ".join(ops))
+    for i in range(r.randint(1, 3)):
+        lines.append("thread W%d sleep %s ; %s r0 %s ; sleep %s ; rwunlock r0" % (
+            i, r.choice(["10", "10", "50", "120"]), r.choice(["wlock", "wlock", "rlock"]),
+            r.choice(["inf", "inf", "90", "95", "250"]), r.choice(["10", "40"])))
+    return lines
+
+
 def gen_c03(r, big=False):
     lines = ["obj mutex m0 %d" % r.choice([0, 0, 1]), "obj cv c0"]
     n = r.randint(2, 6 if big else 4)
@@ -148,7 +166,17 @@ def gen_c03(r, big=False):
             if c < 0.45:
                 ops += ["lock m0 inf", "cvwait c0 m0 %s" % r.choice(["100", "1000", "3000", "inf", "inf"]), "unlock m0"]
             elif c < 0.7:
-                ops += ["lock m0 inf", r.choice(["notify c0", "notifyall c0"]), "unlock m0"]
+                mid = []
+                if r.random() < 0.4:
+                    # keep the mutex for a while after notifying: the woken waiters queue on the mutex, where
+                    # interrupts and their deadlines can hit them
+                    if r.random() < 0.6:
+                        mid.append("intr %s %d" % (r.choice([x for x in names if x != t] or names), r.choice([4, 11])))
+                    if r.random() < 0.6:
+                        mid.append("sleep %s" % r.choice(["50", "100", "1000", "3000"]))
+                    if r.random() < 0.3:
+                        mid.append("intr %s %d" % (r.choice([x for x in names if x != t] or names), r.choice([4, 11])))
+                ops += ["lock m0 inf", r.choice(["notify c0", "notifyall c0"])] + mid + ["unlock m0"]
             elif c < 0.8:
                 ops.append(r.choice(["notify c0", "notifyall c0"]))      # notification without holding the lock
             elif c < 0.9:
@@ -178,6 +206,9 @@ def gen_c06(r, big=False):
                 ops.append("wlock r0 %s" % r.choice(TOS))
             elif c < 0.75:
                 ops.append("rwunlock r0")
+                if r.random() < 0.35:
+                    # barging: re-lock before the waiter that the unlock has just woken gets to run
+                    ops.append("%s r0 %s" % (r.choice(["rlock", "rlock", "wlock"]), r.choice(TOS)))
             elif c < 0.85:
                 ops.append("sleep %s" % r.choice(["0", "50", "100", "1000"]))
             elif c < 0.9:
